@@ -34,7 +34,7 @@ def all_variants(P, seed):
 def _runs(args):
     P, seed = args
     item = all_variants(P, seed)
-    return X._cheap_work(item), X._full_work(item)
+    return X.settled(X._cheap_work(item), item, X.ground_eval), X.settled(X._full_work(item), item, semcheck.run_cfg)
 
 
 def agree_batch(cands):
@@ -105,5 +105,7 @@ for origin, gen, flt, n in QUOTAS:
             if stats.get(origin, 0) < n:
                 add(P, sd, origin)
 os.makedirs(os.path.join(V, "corpus", "C04"), exist_ok=True)
-json.dump(out, open(os.path.join(V, "corpus", "C04", "unbuffered_agree.json"), "w"), default=str, indent=0)
+dest = os.path.join(V, "corpus", "C04", "unbuffered_agree.json")
+json.dump(out, open(dest + ".tmp", "w"), default=str, indent=0)
+os.replace(dest + ".tmp", dest)
 print(len(out), "programs", stats)
